@@ -119,6 +119,28 @@ def check_history(case, outs, res, nblocks, singletons=()):
                                         f"run {r['id']} changed {o['text']} -> {r['text']} without a remote record strictly ahead")
                         if (r['idx'], r['size']) < (o['idx'], o['size']):
                             return fail(res, case, k, 'position-decreased', f"run {r['id']} moved backwards on a remote update")
+                # a run that is still there after the message is not behind any record of the message that named it (the
+                # records of one message are applied one after the other: a later, older record must not undo a newer one)
+                if key in prev and (memory or key[2] not in finished_ids):
+                    own = [x for x in remote.get(key, []) if x in [y for kk, xs in remote.items() for y in xs]]
+                    upd_ids = set()
+                    cl = None
+                    for x in w[1:]:
+                        if x in ('C', 'H', 'U'):
+                            cl = x
+                        elif cl == 'U':
+                            upd_ids.add(x)
+                    best = None
+                    for x in w[1:]:
+                        if x in upd_ids:
+                            pr = parse_rec(x)
+                            if pr['key'] == key and (best is None or (pr['idx'], pr['size']) > (best['idx'], best['size'])):
+                                best = pr
+                    if best is not None and key[:2] not in singletons and (r['idx'], r['size']) < (best['idx'], best['size']) \
+                            and (best['idx'], best['size']) > (prev[key]['idx'], prev[key]['size']) \
+                            and best['idx'] < nblocks.get(key[:2], 10 ** 9):
+                        return fail(res, case, k, 'remote-newer-undone',
+                                    f"run {r['id']} ends at {r['text']} although the same message carried the newer {best['text']}")
         prev = cur
     return True
 
@@ -174,6 +196,19 @@ def run(ctx: Ctx) -> Result:
             for m in ((300, 1100) if ctx.thorough else (300,)):
                 yield Case([('ph', [P('p', ['0000', '0100', '0000'], [['eq:0'], ['eq:1'], ['eq:2']])])], 0,
                            ev_ops([0] + [1] * m + [2]), 'long-loop')
+            # one message naming the same run twice, the newer state first (a backlog resent behind a newer change; two peers'
+            # names for one singleton run)
+            five = [('ph', [P('p', ['0000'] * 5, [['eq:0'], ['eq:1'], ['eq:2'], ['eq:3'], ['eq:4']]),
+                            P('s', ['0000'] * 5, [['eq:0'], ['eq:1'], ['eq:2'], ['eq:3'], ['eq:4']], singleton=True)])]
+            h = lambda n: ';'.join(f'g{i}=z{i}:{i}:s:{i}' for i in range(n))      # noqa
+            for cache in (0, 1000):
+                yield Case(five, cache, ['ev e0 0 s 0', 'ev e1 1 s 1',
+                                         f'rem U r0|ph|p|4|g0=e0:0:s:0;g1=e1:1:s:1;g2=y:7:s:2;g3=y:8:s:3 r0|ph|p|3|g0=e0:0:s:0;g1=e1:1:s:1;g2=y:7:s:2',
+                                         'ev e2 2 s 4'], 'twice-newer-first')
+                yield Case(five, cache, ['ev e0 0 s 0',
+                                         f'rem U fX|ph|s|4|{h(4)} fY|ph|s|3|{h(3)}', 'ev e2 2 s 4'], 'twice-newer-first')
+                yield Case(five, cache, [f'rem U f0|ph|p|1|{h(1)}', f'rem U f0|ph|p|3|{h(3)} f0|ph|p|2|{h(2)} f0|ph|p|4|{h(4)} f0|ph|p|2|{h(2)}'],
+                           'twice-newer-first')
             n = 1200 if ctx.thorough else 220
             for i in range(n):
                 phens = loopy if i % 4 == 0 else gp.random_phens(ctx.rng)
